@@ -14,6 +14,21 @@ TABLE = {
         "assumptions": ["builders abstracted at call sites as uninterpreted functions of all their arguments (their own bodies are under contract in C06)",
                         "source.replace_leaves(m) abstracted as the function replace_leaves(source, m) the per-class obligations define"],
     },
+    "C08": {
+        "mods": ["contracts.glue"], "keys": ["PandasModel._select_columns_step", "PandasModel._rename_columns_step", "PolarsModel._table_step", "PandasModel._table_step"],
+        "explanation": ("hybrid: PROVED (pyvc) -- the column-shaping glue hands the frame library exactly the declared columns: Pandas _table_step and Polars _table_step ALWAYS narrow and order the "
+                        "input to op.column_names (eager or lazy, extra or permuted input columns), _select_columns_step selects column_selection in that order, _rename_columns_step renames with the "
+                        "node's mapping; BOUNDED -- declared columns = returned columns at every node of every enumerated pipeline on Pandas, Polars and SQLite (extend / project / join / convert_records "
+                        "steps and all of the SQL generation are not under contract)"),
+        "assumptions": ["pandas / polars: df[cols], df.loc[:, cols], select(cols), rename(columns=m) are functions of their arguments (library contracts assumed)"],
+    },
+    "C09": {
+        "mods": ["contracts.glue"], "keys": ["PandasModel._select_rows_step"],
+        "explanation": ("hybrid: PROVED (pyvc) -- Pandas _select_rows_step returns clean_copy(rows selected by the node's expression) i.e. a frame with a fresh default index (a gapped index after a "
+                        "filter is what misaligns a following windowed extend); BOUNDED -- row counts of project / windowed extend against distinct key tuples of the materialised input on Pandas, "
+                        "Polars, SQLite (the grouping code itself -- groupby / over / GROUP BY text -- is not under contract)"),
+        "assumptions": ["pandas: reset_index(drop=True, inplace=False) gives a default index; expr.act_on is a function of (expression, frame)"],
+    },
     "C16": {
         "mods": ["contracts.glue"], "keys": ["SQLiteModel._emit_right_join_as_left_join"],
         "explanation": ("hybrid: PROVED (pyvc) -- the SQLite right-join emulation hands the generic translator a LEFT join whose sources AND join keys are swapped, with "
